@@ -6,6 +6,10 @@
    PROVED (hence `_partial`): the executable checker `check_satisfies` that judges each solution the real planner
    reports is sound w.r.t. the denotational semantics of plan/Sem.v, for ALL programs and ALL solutions; the gap is
    the planner itself (15 k lines: search, heuristics, SMT core), which is only observed through its solutions.
+   PRECONDITION of incremental use (observed, also asserted by the planner's debug build in flaw::init): a further core::read() after a
+   solve() must be done at root level (the deliberative executor pops the decisions first); clauses posted while decisions are on
+   the trail are simplified under the current, non-root assignment and constraints read that way can be lost. The incremental problems
+   of the check pop to root level before every further read.
    Only theorem statements here; proofs are in proofs/Check_Proofs.v. *)
 From Coq Require Import List NArith ZArith QArith Bool.
 From ORatio Require Import plan.Ast plan.Sem plan.Check proofs.Check_Proofs proofs.Plan_Examples.
